@@ -10,6 +10,8 @@ RULE = ('random interleavings (length 1..60) of didOpen / didChange with 0, 1 or
 TEXTS = ['PROGRAM p\nVAR a : BOOL; END_VAR\na := TRUE;\nEND_PROGRAM\n', 'PROGRAM q\nVAR a : BOOL; END_VAR\nb := TRUE;\nEND_PROGRAM\n',
          'x ? y', 'PROGRAM ', '', '(* only a comment *)', 'TYPE T : INT; END_TYPE', 'FUNCTION_BLOCK f VAR x : g; END_VAR END_FUNCTION_BLOCK',
          'PROGRAM é END_PROGRAM', "VAR s : STRING := 'abc'; END_VAR"]
+DEEP_SUM = 'PROGRAM p\nVAR x : INT; END_VAR\nx := ' + '1 + ' * 3000 + '1;\nEND_PROGRAM\n'
+DEEP_PAREN = 'PROGRAM p\nVAR x : INT; END_VAR\nx := ' + '(' * 200 + '1' + ' + 1)' * 200 + ';\nEND_PROGRAM\n'
 REQ_METHODS = ['textDocument/hover', 'textDocument/completion', 'textDocument/definition', 'workspace/symbol', '$/custom', 'foo']
 NOTIF_METHODS = ['$/setTrace', 'textDocument/didSave', 'workspace/didChangeConfiguration', 'textDocument/didClose', '$/cancelRequest', 'bar']
 URIS = ['f0', 'f1', 'f2', 'n0', 'n1']
@@ -76,6 +78,11 @@ def run(ctx):
         [('resp', 3)], [('change', 'f0', 1, [])], [('req', 1, 'textDocument/hover')],
         [('change', 'f0', 1, ['x ? y', TEXTS[0]])], [('open', 'n0', 1, 'PROGRAM ?')], [('notif', '$/setTrace')],
         [('semtok', 1, 'f0')], [('semtok', 1, 'n0')], [('open', 'f0', 1, TEXTS[0]), ('semtok', 1, 'f0')],
+        # documents as deep as the command line accepts (a sum of 3000 terms, parentheses nested 200 deep): the server runs
+        # the same parser and analyzer on every edit
+        [('open', 'f0', 1, DEEP_SUM), ('semtok', 1, 'f0')],
+        [('open', 'f0', 1, TEXTS[0]), ('change', 'f0', 2, [DEEP_SUM]), ('semtok', 1, 'f0'), ('req', 2, 'textDocument/hover')],
+        [('open', 'f1', 1, DEEP_PAREN), ('semtok', 1, 'f1'), ('change', 'f1', 2, [TEXTS[0]]), ('semtok', 2, 'f1')],
     ]
     for d in directed:
         rid = max([m[1] for m in d if m[0] in ('semtok', 'req')] + [0]) + 1
